@@ -178,11 +178,15 @@ theorem okM_trimLeft : PostMOk NF (fun _ => True) trimLeftM := by
 
 theorem okM_trimRight {Q : RawErr → Prop} : PostMOk Q (fun _ => True) trimRightM := fun _ => .ret _ True.intro
 
+theorem okM_writeVerbatim (b : Bytes) : PostMOk NF (fun _ => True) (writeVerbatimM b) := by
+  unfold writeVerbatimM
+  exact okM_bind (okM_write []) (fun _ _ => okM_bind (okM_write b) (fun _ _ => okM_flush))
+
 theorem okM_writeAll : ∀ cs, PostMOk NF (fun _ => True) (writeAllM cs)
   | [] => okM_pure () True.intro
   | c :: cs => by
     unfold writeAllM
-    exact okM_bind (okM_write c) (fun _ _ => okM_writeAll cs)
+    exact okM_bind (okM_writeVerbatim c) (fun _ _ => okM_writeAll cs)
 
 theorem okM_capture {α} (L : List Nat) {R : α → Prop} {m : M α} (hm : PostMOk (EInner L) R m) :
     PostMOk (EInner L) (fun r => R r.1) (captureM m) := by
@@ -395,7 +399,7 @@ theorem elines_renderNode (c : RCtx) (L : List Nat) :
     refine okM_wrapFailAt _ L line hline (okM_bind (okM_getVar _) (fun lv _ => ?_))
     split
     · exact okM_fail _ ⟨hline, rfl⟩
-    · exact okM_bind (okM_setVar _ _) (fun _ _ => okM_bind (okM_nf (okM_write _)) (fun _ _ => okM_pure _ True.intro))
+    · exact okM_bind (okM_setVar _ _) (fun _ _ => okM_bind (okM_nf (okM_writeVerbatim _)) (fun _ _ => okM_pure _ True.intro))
   | .brk line, _, hL => by
     unfold renderNode
     have hline : line ∈ L := hL _ (by simp [Node.elines])
